@@ -303,7 +303,9 @@ def makeData (cmd : Cmd) (pkg : Pkg) (specified : Bool) (n : String) : Except St
     else throw .fatal
   | .enum =>
     -- makeStr: alias of that name -> Fatal; constants of a non-integer type -> Fatal; no constant -> nil
-    -- (with a warning "no constants of type … found" when the type was named: `skipWarn`)
+    -- (with a warning "no constants of type … found" when the type was named: `skipWarn`).
+    -- Since /repo 17b8707 makeStr's walk does not enter function bodies: only package-level TypeSpecs are seen
+    let ts := namedTop pkg n
     if ts.any (·.alias) then throw .fatal
     else if (constsOf n pkg).isEmpty then pure false
     else if ts.any nonIntUnder || (ts.isEmpty && predeclNonInt n) then throw .fatal
